@@ -60,8 +60,13 @@ class ScalarField(FieldBase):
         return (self.data * self.grid.cell_volumes).sum()
 
     @property
+    def average(self):
+        # pde: integral over space divided by the grid volume
+        return self.integral / self.grid.volume
+
+    @property
     def magnitude(self):
-        raise core.Abort("unsupported", "ScalarField.magnitude")
+        return abs(lift(self.average))
 
 
 def extract_field(fields, source=None, check_rank=None):
